@@ -140,6 +140,9 @@ func (eng *Engine) verifyFunction(f *ssa.Function, ct *Contract) (res *FuncResul
 			o.params = append(o.params, fr.vals[p])
 			o.pnames = append(o.pnames, p.Name())
 		}
+		if o.kind == "post" || o.kind == "safe" {
+			eng.planReplay(fr, fc, o, results)
+		}
 	}
 	return res
 }
